@@ -381,6 +381,15 @@ def gen_fees(rng, n, tier):
                                 "abc", "-5", "-1000000000000000", "100000000000000000000000000", "3.5", ""])
                 if amt == "":
                     amt = "~"
+                if k >= 0.12 and r.random() < 0.2:
+                    # a rich sender (a genesis admin holds 10^24): amounts around 2^63 and around its balance are covered or just
+                    # not covered — the stated amount moves, whatever its size
+                    a = r.choice(["adm1", "adm2", "adm3"])
+                    # (the harness reports admin balances relative to the genesis value, the real ones carry the fees of the world's
+                    # prelude: amounts within that margin of the balance are avoided, coverage would differ between node and model)
+                    amt = r.choice([str(2 ** 63 - 1), str(2 ** 63), str(2 ** 63 + 1), str(10 ** 19), str(2 ** 64), str(2 ** 64 + 5), str(4 * 10 ** 23),
+                                    str(2 * 10 ** 24), str(3 * 10 ** 24 + 1), "-" + str(2 ** 63), "-" + str(2 ** 64)])
+                    tags.add("xfer:rich-sender" + (":above-int64" if abs(int(amt)) >= 2 ** 63 else ""))
                 if amt.startswith("-"):
                     tags.add("xfer:negative")
                 if k > 0.85:
